@@ -45,7 +45,10 @@ def gen_anchor_seqs(rng, n):
 NAMES = ["a", "b", "c", "A", "B", "note", "1", "2", "a-2", "b-2", "x_y", "é", "É", 'a"b', "a%22b", "a%2", "fn", "ß", "SS",
          # names that label normalisation rewrites: interior Unicode white space collapses to one space (the id of the
          # definition and the href of its references must be built from the same, normalised, name)
-         "a\u3000b", "a\u00a0\u00a0b", "x\u2003y"]
+         "a\u3000b", "a\u00a0\u00a0b", "x\u2003y",
+         # names on which normalising TWICE differs from normalising once (Unicode white space at either end becomes an
+         # ASCII space that the next round trims): the reference walk must not normalise the stored name again (fix C15-d)
+         "\u00a0lead", "trail\u3000", "\u2003q\u00a0"]
 REFONLY = ["nosuch", "zz", "a b", "9"]
 WORDS = ["alpha", "beta", "gamma", "delta", "x", "y", "z", "foo", "bar", "7", "w1"]
 
@@ -497,7 +500,9 @@ def main(tier):
             continue
         gdocs.append(dd)
     # fixed witnesses first: reference inside an image description (F27), F8, F22
-    gdocs = ["![[^a]](u)\n\n[^a]: x\n", "text\n\n[^a]: x[^b]\n\n[^b]: y\n", "x[^a]\n\n[^a]: one\n\n    [^b]: two\n"] + gdocs
+    gdocs = ["![[^a]](u)\n\n[^a]: x\n", "text\n\n[^a]: x[^b]\n\n[^b]: y\n", "x[^a]\n\n[^a]: one\n\n    [^b]: two\n",
+             # labels with Unicode white space at an end (normalize_label is not idempotent on them)
+             "[^\u00a0a]: text\n\nx[^\u00a0a]\n", "y[^a\u3000] z[^A\u3000]\n\n[^a\u3000]: t\n", "[^\u2003q\u00a0]: t\n\n[^\u2003q\u00a0] and [^\u2003Q\u00a0]\n"] + gdocs
     gopts = []
     for _ in gdocs:
         o = {"footnotes": True}
